@@ -4059,10 +4059,10 @@ class PathSegment:
 
     def __iadd__(self, other):
         if isinstance(other, PathSegment):
-            path = Path(self, other)
+            path = Path(copy(self), copy(other))
             return path
         elif isinstance(other, str):
-            path = Path(self) + other
+            path = Path(copy(self)) + other
             return path
         return NotImplemented
 
@@ -5992,6 +5992,8 @@ class Path(Shape, MutableSequence):
     def __add__(self, other):
         if isinstance(other, (str, Path, Subpath, Shape, PathSegment)):
             n = copy(self)
+            if isinstance(other, PathSegment):
+                other = copy(other)
             n += other
             return n
         return NotImplemented
@@ -6003,7 +6005,7 @@ class Path(Shape, MutableSequence):
             return path
         elif isinstance(other, PathSegment):
             path = copy(self)
-            path.insert(0, other)
+            path.insert(0, copy(other))
             return path
         else:
             return NotImplemented
